@@ -201,7 +201,7 @@ func (n node) doTake(ctx context.Context, val any, key string,
 				return nil, err
 			}
 
-			if err = query(val); err == n.errNotFound {
+			if err = query(val); errors.Is(err, n.errNotFound) {
 				if err = n.setCacheWithNotFound(ctx, key); err != nil {
 					logger.Error(err)
 				}
